@@ -130,6 +130,15 @@ class CParser:
         if len(self._scope_stack) > 1:
             self._scope_stack.pop()
 
+    def _share_enclosing_scope(self) -> None:
+        """The braces of an enum body are not a scope: enumerators belong to
+        the scope the enum specifier appears in. The lexer has pushed a scope
+        for the '{' just consumed; make it an alias of the enclosing one, so
+        that what is declared until the matching '}' stays declared after it.
+        """
+        if len(self._scope_stack) > 1:
+            self._scope_stack[-1] = self._scope_stack[-2]
+
     def _add_typedef_name(self, name: str, coord: Optional[Coord]) -> None:
         """Add a new typedef name (ie a TYPEID) to the current scope"""
         if not self._scope_stack[-1].get(name, True):
@@ -1218,12 +1227,14 @@ class CParser:
             name_tok = self._advance()
             if self._peek_type() == "LBRACE":
                 self._advance()
+                self._share_enclosing_scope()
                 enums = self._parse_enumerator_list()
                 self._expect("RBRACE")
                 return c_ast.Enum(name_tok.value, enums, self._tok_coord(tok))
             return c_ast.Enum(name_tok.value, None, self._tok_coord(tok))
 
         self._expect("LBRACE")
+        self._share_enclosing_scope()
         enums = self._parse_enumerator_list()
         self._expect("RBRACE")
         return c_ast.Enum(None, enums, self._tok_coord(tok))
